@@ -7,6 +7,8 @@ package harness
 import (
 	"bytes"
 	"fmt"
+	"github.com/ipld/go-ipld-prime/datamodel"
+	"github.com/ipld/go-ipld-prime/fluent/qp"
 	"testing"
 
 	"github.com/gogo/protobuf/proto"
@@ -926,3 +928,76 @@ var c09OtherNode = func() data.UnixFSData {
 	}
 	return n
 }()
+
+// Long packed block-size runs (a file node with tens of thousands of children, as other writers pack them): 65535 .. 200000
+// entries decode to what the reference decodes.
+func TestC09_R_VeryLongPackedRuns(t *testing.T) {
+	for _, n := range []int{65535, 65536, 65537, 70000, 200000} {
+		var run []byte
+		want := make([]uint64, n)
+		for i := 0; i < n; i++ {
+			want[i] = uint64(i%300 + 1)
+			run = wVarint(run, want[i])
+		}
+		wire := wVarint(wTag(nil, 1, 0), 2)
+		wire = wVarint(wTag(wire, 4, 2), uint64(len(run)))
+		wire = append(wire, run...)
+		var ref pb.Data
+		if err := proto.Unmarshal(wire, &ref); err != nil || len(ref.Blocksizes) != n {
+			t.Fatalf("HARNESS: reference: %v, %d sizes", err, len(ref.Blocksizes))
+		}
+		d, err := data.DecodeUnixFSData(wire)
+		if err != nil {
+			t.Fatalf("C09: a packed run of %d block sizes (reference decodes it): %v", n, err)
+		}
+		if got := libToPB(d); len(got.Blocksizes) != n || got.Blocksizes[n-1] != want[n-1] || got.Blocksizes[65535%n] != want[65535%n] {
+			t.Fatalf("C09: a packed run of %d block sizes decodes to %d sizes", n, len(got.Blocksizes))
+		}
+	}
+}
+
+// One typed builder used for several messages in a row (Build, Reset, assemble the next - the NodeBuilder contract): a
+// message that was built stays what it was when the builder moves on.
+func TestC09_R_BuilderReusedAfterReset(t *testing.T) {
+	nb := data.Type.UnixFSData.NewBuilder()
+	assemble := func(typ int64, inline string, size int64) data.UnixFSData {
+		ma, err := nb.BeginMap(-1)
+		if err != nil {
+			t.Fatal(err)
+		}
+		qp.MapEntry(ma, "DataType", qp.Int(typ))
+		if inline != "" {
+			qp.MapEntry(ma, "Data", qp.Bytes([]byte(inline)))
+		}
+		if size >= 0 {
+			qp.MapEntry(ma, "FileSize", qp.Int(size))
+		}
+		qp.MapEntry(ma, "BlockSizes", qp.List(0, func(datamodel.ListAssembler) {}))
+		if err := ma.Finish(); err != nil {
+			t.Fatal(err)
+		}
+		return nb.Build().(data.UnixFSData)
+	}
+	first := assemble(data.Data_File, "the first message", 17)
+	firstEnc := append([]byte(nil), data.EncodeUnixFSData(first)...)
+	nb.Reset()
+	second := assemble(data.Data_Directory, "", -1)
+	nb.Reset()
+	third := assemble(data.Data_Raw, "x", 1)
+	for i, c := range []struct {
+		n    data.UnixFSData
+		want *pb.Data
+	}{
+		{first, &pb.Data{Type: pb.Data_File.Enum(), Data: []byte("the first message"), Filesize: u64p(17)}},
+		{second, &pb.Data{Type: pb.Data_Directory.Enum()}},
+		{third, &pb.Data{Type: pb.Data_Raw.Enum(), Data: []byte("x"), Filesize: u64p(1)}},
+	} {
+		var back pb.Data
+		if err := proto.Unmarshal(data.EncodeUnixFSData(c.n), &back); err != nil || !proto.Equal(&back, c.want) {
+			t.Fatalf("C09: message #%d built through one builder (Build, Reset, next): the reference decodes its encoding as {%v} (err %v), it was built as {%v}", i+1, &back, err, c.want)
+		}
+	}
+	if !bytes.Equal(data.EncodeUnixFSData(first), firstEnc) {
+		t.Fatalf("C09: the first message encodes differently after the builder was reset and reused")
+	}
+}
